@@ -294,6 +294,11 @@ def udp_build_parse(vc, ext, ndata):
     compare_fields(vc, p, q)
     vc.prove("reserialises_to_equal_bits", vc.eq(q.as_bits(), keep) if _ids_defined(vc, p) else True)
     vc.prove("frame_argument_unchanged", vc.eq(b, keep))
+    if ndata % 8 == 0:  # the octet interface (whole octets only): the same PDU through as_bytes / from_bytes
+        raw = p.as_bytes()
+        vc.prove("octets_are_the_bits", vc.eq(raw, keep.tobytes()))
+        r = UDPIPv4CompressedHeader.from_bytes(raw)
+        vc.prove("octet_decoder_yields_equal_bits", vc.eq(r.as_bits(), keep))
 
 
 def _ids_defined(vc, p):
